@@ -77,6 +77,13 @@ class C10(PureCheck):
             for a in range(0, w + 3):
                 for b in range(a, w + 3):
                     yield {"op": "wslice", "f": f, "a": a, "b": b}
+                    if b == a + 1 and a < w:
+                        # one existing column can also be asked for with a plain int, counted from either end
+                        yield {"op": "wslice", "f": f, "a": a, "b": b, "int": 1}
+                        yield {"op": "wslice", "f": f, "a": a, "b": b, "int": 2}
+                    if (a + b) % 5 == 0:
+                        # and a range with its bounds omitted / counted from the end
+                        yield {"op": "wslice", "f": f, "a": a, "b": b, "int": 3}
 
     def execute(self, inp):
         ev = dict(inp)
@@ -100,7 +107,17 @@ class C10(PureCheck):
             except Exception as e:  # noqa
                 ev["n"], ev["k"], ev["t"] = 0, "exc", enc.exc_name(e)
         else:
-            ev["res"] = fmtlib.enc_res(lambda: enc.call(f.width_aware_slice, slice(inp["a"], inp["b"])))
+            w = cols(inp["f"])
+            a, b = inp["a"], inp["b"]
+            if inp.get("int") == 1:
+                idx = a
+            elif inp.get("int") == 2:
+                idx = a - w
+            elif inp.get("int") == 3:
+                idx = slice(None if a == 0 else (a - w if 0 < a < w else a), None if b == w else (b - w if 0 < b < w else b))
+            else:
+                idx = slice(a, b)
+            ev["res"] = fmtlib.enc_res(lambda: enc.call(f.width_aware_slice, idx))
         return ev
 
     def _cuts(self, ev):
